@@ -80,7 +80,10 @@ func ZqWrapNames(v any) string { return zqleaf.ZqNames(v) + "+" + zqleaf.ZqNames
 			}
 			return ""
 		}()),
-		"zqmid/zqleaf/leaf.go": fmt.Sprintf("package zqleaf\n\nimport \"reflect\"\n\n%s//go:noinline\nfunc ZqLeaf(n int) int { return n*%d + len(zqLeafLit) }\n\nvar zqLeafLit = \"leaf literal value\"\n\ntype ZqLeafT struct{ ZqLeafF int }\n\n// ZqNames reflects on its argument: facts about it flow to every dependant through garble's cache.\n//\n//go:noinline\nfunc ZqNames(v any) string {\n\tt := reflect.TypeOf(v)\n\treturn t.Name() + \"/\" + t.Field(0).Name + \"/\" + reflect.TypeOf(ZqLeafT{}).Name()\n}\n", strings.Repeat("// a comment edit\n", e["comment"]), 7+e["leaf"]),
+		"zqmid/zqleaf/leaf.go": fmt.Sprintf("package zqleaf\n\nimport (\n\t\"reflect\"\n\n\t\"%s/zqmid/zqleaf/zqdeep\"\n)\n\n%s//go:noinline\nfunc ZqLeaf(n int) int { return n*%d + len(zqLeafLit) + zqdeep.ZqDeepWeight(n) }\n\nvar zqLeafLit = \"leaf literal value\"\n\ntype ZqLeafT struct{ ZqLeafF int }\n\n// ZqNames reflects on its argument: facts about it flow to every dependant through garble's cache.\n//\n//go:noinline\nfunc ZqNames(v any) string {\n\tt := reflect.TypeOf(v)\n\treturn t.Name() + \"/\" + t.Field(0).Name + \"/\" + reflect.TypeOf(ZqLeafT{}).Name() + \"/\" + zqdeep.ZqDeepName()\n}\n", histMod, strings.Repeat("// a comment edit\n", e["comment"]), 7+e["leaf"]),
+		// a package three imports away from main: an edit to the body of its non-inlined function (or a comment
+		// appended at the end of the file) changes its own action ID but not the compiled output of the packages in between
+		"zqmid/zqleaf/zqdeep/deep.go": fmt.Sprintf("package zqdeep\n\nimport \"reflect\"\n\ntype ZqDeepT struct{ ZqDeepF int }\n\n//go:noinline\nfunc ZqDeepWeight(n int) int { return n %% %d }\n\n// ZqDeepName reflects on a type of this package.\n//\n//go:noinline\nfunc ZqDeepName() string {\n\tt := reflect.TypeOf(ZqDeepT{})\n\treturn t.Name() + \".\" + t.Field(0).Name\n}\n%s", 5+e["deep"], strings.Repeat("\n// a comment appended at the end\n", e["deepcomment"])),
 	}
 	if e["file"] > 0 {
 		files["zqmid/extra.go"] = fmt.Sprintf("package zqmid\n\nfunc zqExtra() string { return \"extra file v%d\" }\n", e["file"])
@@ -89,7 +92,7 @@ func ZqWrapNames(v any) string { return zqleaf.ZqNames(v) + "+" + zqleaf.ZqNames
 }
 
 func editKey(e map[string]int) string {
-	return fmt.Sprintf("l%d-m%d-c%d-f%d", e["leaf"], e["main"], e["comment"], e["file"])
+	return fmt.Sprintf("l%d-m%d-c%d-f%d-d%d-dc%d", e["leaf"], e["main"], e["comment"], e["file"], e["deep"], e["deepcomment"])
 }
 
 func histAlphabet() []Config {
@@ -217,14 +220,14 @@ func checkC06(c *Ctx) {
 		[]step{{byName["K2"], ""}, {byName["K2+X1"], ""}, {byName["K2+X2"], ""}, {byName["K2"], ""}},
 		[]step{{byName["K2+X1"], ""}, {byName["K0+X1"], ""}, {byName["K2+X2"], ""}, {byName["K0+X2"], ""}, {byName["K2"], "main"}},
 		// edits in a reflecting dependency: the dependants' cached reflection facts must not go stale
-		[]step{{byName["K0"], ""}, {byName["K0"], "leaf"}, {byName["K0"], "leaf"}, {byName["K0"], "comment"}, {byName["K0"], "main"}, {byName["K0"], "file"}},
+		[]step{{byName["K0"], ""}, {byName["K0"], "leaf"}, {byName["K0"], "deep"}, {byName["K0"], "deepcomment"}, {byName["K0"], "comment"}, {byName["K0"], "main"}, {byName["K0"], "deep"}, {byName["K0"], "file"}},
 	)
 	nh, hl := c.pick(2, 10), c.pick(6, 10)
 	for h := 0; h < nh; h++ {
 		r := subRand(c.Seed, "c06", c.Tier, h)
 		var hs []step
 		for s := 0; s < hl; s++ {
-			ed := []string{"", "", "comment", "leaf", "main", "file"}[r.Intn(6)]
+			ed := []string{"", "", "comment", "leaf", "main", "file", "deep", "deepcomment"}[r.Intn(8)]
 			hs = append(hs, step{alpha[r.Intn(len(alpha))], ed})
 		}
 		histories = append(histories, hs)
